@@ -85,6 +85,10 @@ def collect(prop=None, tier="quick"):
                     continue
                 if tier == "quick" and h.tier != "quick":
                     continue
+                if tier == "thorough" and h.tier == "fallback":
+                    continue
+                if tier == "fallback" and h.tier != "fallback":
+                    continue
                 out.append(h)
     return out
 
@@ -97,8 +101,14 @@ def support_files():
 def inject(scratch, harnesses):
     """Copy harness files next to their host source file in the snapshot and declare them
     as cfg(kani) child modules. Returns list of injected files."""
-    files = sorted({h.file for h in harnesses})
+    files = {h.file for h in harnesses}
     kdir = os.path.join(VERIF, "kani")
+    for f in list(files):      # per-host shared support module (builders, dummy plans, wf predicates)
+        host = os.path.splitext(f)[0][len("verif_"):].split("__")[0]
+        common = "verif_%s__common.rs" % host
+        if os.path.exists(os.path.join(kdir, common)):
+            files.add(common)
+    files = sorted(files)
     injected = []
     for f in files:
         host = os.path.splitext(f)[0][len("verif_"):].split("__")[0]
